@@ -46,7 +46,9 @@ CHECKS["C08"] = dict(
          "ciphertexts rejected; recorded method always concrete; SecureField stored-value decision table (every malformed shape "
          "rejected) and field-level round trip, using proved base64 decode(encode b)=b. Correspondence: the model instantiated "
          "with an executable FIPS-197 AES-256 decrypts every ciphertext the library produced and re-encrypts with the IV it drew "
-         "(byte equality); malformed-value grammar through SecureField.to_python; lenient base64 decoding on random text."
+         "(byte equality); malformed-value grammar through SecureField.to_python (strict base64: theorem stored_foreign_characters_rejected — a stored "
+         "ciphertext with a character outside the alphabet, or not a whole number of 4-character groups, is rejected); provider objects reused "
+         "for several values; strict and lenient base64 decoding on random text."
          " Continuation (Props/C08b.lean): the executable AES-256 of the model is proved to be a lawful block cipher for every key (S-box by exhaustive table check, MixColumns inverse from XOR-linearity of xtime), so the CBC round trip holds for it with no hypothesis on the block function.",
     note="BlockCipher.Lawful for the real AES and Utf8.Lawful are hypotheses (not axioms); the Lean AES is validated by NIST vectors at "
          "build time and differentially on every case. IV randomness and 'another key never yields the plaintext' are not provable; the "
